@@ -14,7 +14,8 @@ PIN_TARGETS = ['PdbVerif.Pins.D']
 RULE = ('real pdb2sql databases built from generated ATOM lines (1-30 atoms, chains A-C, coordinates with three decimals up to +-999) '
         'driven through compositions of 1-5 of translation / rot_axis / rot_euler / rot_mat, each with its own selection (everything, '
         'one chain, several chains = empty complement, single rowID, atom name, residue range, negated chain, rowID lists in ascending, '
-        'shuffled, reversed, concatenated (later rows first) and duplicated order, alone and combined with a chain key; a separate '
+        'shuffled, reversed, concatenated (later rows first) and duplicated order, alone and combined with a chain key, negated selections no_rowID (sorted / unsorted '
+        'list, scalar) / no_name / no_resSeq / no_chainID alone, combined with a positive key and with each other; a separate '
         'stream of empty selections), angles in [-4pi, 4pi] (generic stream kept away from multiples of pi, separate stream at multiples of pi/2), '
         'Euler triples with all three angles non-zero, random unit axes and coordinate axes, proper random matrices; the xyz-level '
         'functions additionally with explicit centres. get(\'*\') after the sequence is compared with the Lean model (the code\'s matrices) '
@@ -58,7 +59,9 @@ def table_json(rows):
 
 
 ORDERED_KINDS = ['rowlist_shuffled', 'rowlist_reversed', 'rowlist_concat', 'rowlist_dup', 'rowlist_and_key']
-SEL_KINDS = ['all', 'chain', 'chains_all', 'single', 'name', 'resrange', 'no_chain', 'rowlist'] + ORDERED_KINDS
+NEGATED_KINDS = ['no_rowlist', 'no_rowlist_unsorted', 'no_row_scalar', 'no_name', 'no_name_list', 'no_resseq', 'no_resseq_scalar',
+                 'no_row_and_chain', 'no_name_and_rowlist', 'no_row_no_chain', 'no_chain_and_name']
+SEL_KINDS = ['all', 'chain', 'chains_all', 'single', 'name', 'resrange', 'no_chain', 'rowlist'] + ORDERED_KINDS + NEGATED_KINDS
 
 
 def selection(rng, rows, kind=None):
@@ -127,6 +130,53 @@ def selection(rng, rows, kind=None):
         if rng.random() < 0.5:
             rng.shuffle(ks)
         return kind, {'rowID': ks, 'chainID': c}, [(i in ks and rows[i][4] == c) for i in range(n)]
+    # negated selections.  The mask is computed here from each row's own position / attributes in the reference table, never
+    # through the library's get(); a candidate that would select nothing falls back to 'all'.
+    if kind in NEGATED_KINDS:
+        names = sorted({r[1] for r in rows}); resseqs = sorted({r[5] for r in rows})
+        kw, mask = None, None
+        if kind in ('no_rowlist', 'no_rowlist_unsorted') and n >= 2:
+            ks = sorted(rng.sample(range(n), rng.randint(1, n - 1)))
+            if kind == 'no_rowlist_unsorted' and len(ks) >= 2:
+                ks = ks[::-1] if rng.random() < 0.5 else rng.sample(ks, len(ks))
+            kw, mask = {'no_rowID': ks}, [i not in ks for i in range(n)]
+        elif kind == 'no_row_scalar' and n >= 2:
+            k = rng.randrange(n)
+            kw, mask = {'no_rowID': k}, [i != k for i in range(n)]
+        elif kind == 'no_name':
+            nm = rng.choice(names)
+            kw, mask = {'no_name': nm}, [r[1] != nm for r in rows]
+        elif kind == 'no_name_list':
+            nms = rng.sample(names, rng.randint(1, max(1, len(names) - 1)))
+            kw, mask = {'no_name': nms}, [r[1] not in nms for r in rows]
+        elif kind == 'no_resseq':
+            rs = rng.sample(resseqs, rng.randint(1, max(1, len(resseqs) - 1)))
+            kw, mask = {'no_resSeq': rs}, [r[5] not in rs for r in rows]
+        elif kind == 'no_resseq_scalar':
+            rsq = rng.choice(resseqs)
+            kw, mask = {'no_resSeq': rsq}, [r[5] != rsq for r in rows]
+        elif kind == 'no_row_and_chain':               # negated rows combined with a positive key
+            c = rng.choice(chains)
+            members = [i for i, r in enumerate(rows) if r[4] == c]
+            ks = rng.sample(range(n), rng.randint(1, max(1, n // 2)))
+            if all(i in ks for i in members):
+                ks = [i for i in ks if i != members[0]] or [j for j in range(n) if j != members[0]][:1]
+            if ks:
+                kw, mask = {'no_rowID': ks, 'chainID': c}, [(i not in ks and rows[i][4] == c) for i in range(n)]
+        elif kind == 'no_name_and_rowlist':            # negated name combined with a non-ascending positive rowID list
+            nm = rng.choice(names)
+            ks = rng.sample(range(n), rng.randint(1, n)); ks.sort(reverse=True)
+            kw, mask = {'no_name': nm, 'rowID': ks}, [(i in ks and rows[i][1] != nm) for i in range(n)]
+        elif kind == 'no_row_no_chain':                # two negated keys
+            c = rng.choice(chains)
+            ks = rng.sample(range(n), rng.randint(1, max(1, n // 2)))
+            kw, mask = {'no_rowID': ks, 'no_chainID': c}, [(i not in ks and rows[i][4] != c) for i in range(n)]
+        elif kind == 'no_chain_and_name':
+            c, nm = rng.choice(chains), rng.choice(names)
+            kw, mask = {'no_chainID': c, 'name': nm}, [(r[4] != c and r[1] == nm) for r in rows]
+        if mask is None or not any(mask):
+            return 'all', {}, [True] * n
+        return kind, kw, mask
     if kind == 'empty':
         return kind, {'chainID': 'Z'}, [False] * n
     raise ValueError(kind)
@@ -238,12 +288,12 @@ def search_cases(ctx):
     rng = ctx.rng
     g = nprng(rng)
     out = []
-    for _ in range(ctx.scale(60, 600)):
+    for _ in range(ctx.scale(150, 1500)):
         lines = make_lines(rng)
         rows = pdb2sql(lines).get('*')
         kind = rng.choice(['rot_axis', 'rot_euler', 'rot_euler', 'translation', 'rot_mat'])
         st = make_step(rng, g, kind, 'two' if kind == 'rot_euler' else 'generic')
-        sk, kw, mask = selection(rng, rows, rng.choice(['chain', 'single', 'rowlist', 'all'] + ORDERED_KINDS))
+        sk, kw, mask = selection(rng, rows, rng.choice(['chain', 'single', 'rowlist', 'all'] + ORDERED_KINDS + NEGATED_KINDS))
         st.update({'selkind': sk, 'kwargs': kw, 'mask': mask})
         out.append({'op': 'transform_seq', 'lines': lines, 'steps': [st], 'family': 'search'})
     return out
@@ -446,7 +496,7 @@ def extra_checks(ctx):
         lines = make_lines(rng, rng.choice([4, 8, 13]))
         db = pdb2sql(lines)
         rows0 = db.get('*')
-        sk, kw, mask = selection(rng, rows0, rng.choice(['all', 'chain', 'rowlist', 'no_chain', 'single'] + ORDERED_KINDS))
+        sk, kw, mask = selection(rng, rows0, rng.choice(['all', 'chain', 'rowlist', 'no_chain', 'single'] + ORDERED_KINDS + NEGATED_KINDS))
         st = make_step(rng, g, None, rng.choice(['generic', 'halfpi']))
         st.update({'kwargs': kw})
         try:
